@@ -142,6 +142,8 @@ INVALID = {
     "unknown-processor": (GOODP.replace("FloatMultiplyOperation", "NoSuchProcessorAnywhere"), ["--context", "factor=2.0"]),
     "unknown-parameter": (GOODP.replace("path: \"{out}\"", "path: \"{out}\"\n        bogus_parameter: 1"), ["--context", "factor=2.0"]),
     "missing-required-context-key": (GOODP, []),
+    "required-key-read-before-the-node-that-creates-it": (HEAD + "pipeline:\n  nodes:\n    - processor: FloatValueDataSourceWithDefault\n    - processor: FloatMultiplyOperation\n"
+                                                          "    - processor: FloatCollectValueProbe\n      context_key: factor\n    - processor: FloatTxtFileSaver\n      parameters:\n        path: \"{out}\"\n", []),
     "top-level-not-a-mapping": ("- 1\n- 2\n", []),
     "run_space-not-a-mapping": (GOODP + "run_space: 3\n", ["--context", "factor=2.0"]),
     "run_space-by_position-length-mismatch": (HEAD + "pipeline:\n" + nodes(2) + "run_space:\n  blocks:\n    - mode: by_position\n      context:\n        factor: [2.0, 3.0]\n        other: [1]\n", []),
@@ -166,7 +168,7 @@ for n in ((1, 2, 3, 4) if thorough else (1, 2, 3)):
 
 import shutil
 shutil.rmtree(root, ignore_errors=True)
-print(json.dumps({"bound": "run_space block placement {absent, empty, top-level, nested} x flags {none, --validate, --dry-run, --run-space-dry-run, +max-runs, yaml dry_run, cap exceeded (incl. caps 0 and 1) / sufficient} + 11 invalid configurations + failing run k of n (n <= 3 quick, 4 thorough)",
+print(json.dumps({"bound": "run_space block placement {absent, empty, top-level, nested} x flags {none, --validate, --dry-run, --run-space-dry-run, +max-runs, yaml dry_run, cap exceeded (incl. caps 0 and 1) / sufficient} + 12 invalid configurations + failing run k of n (n <= 3 quick, 4 thorough)",
                   "evaluations": evaluations, "distinct_nontrivial": len(distinct),
                   "rule": "distinct = case name; execution observed through sink files and JSONL trace records written by the real CLI",
                   "failures": failures[:40], "samples": samples}, default=str))
